@@ -117,6 +117,8 @@ func (em *HashMap) rehash() {
 
 /* Returns all keys of the index */
 func (em *HashMap) Keys() []Hasher {
+	em.RLock()
+	defer em.RUnlock()
 	keys := make([]Hasher, em.total)
 	total := 0
 	for _, b := range em.mapArray {
@@ -131,6 +133,8 @@ func (em *HashMap) Keys() []Hasher {
 }
 
 func (em *HashMap) KeyValues() []*KeyValue {
+	em.RLock()
+	defer em.RUnlock()
 	keyvalues := make([]*KeyValue, em.total)
 	total := 0
 	for _, b := range em.mapArray {
